@@ -6,6 +6,7 @@ mod json;
 mod mon;
 mod oracle;
 mod rng;
+mod types;
 mod util;
 mod work;
 
